@@ -30,8 +30,8 @@ BUDGET = {'quick': 3200, 'thorough': 96000}
 PROFILE = {
     'weights': {'crashcycle': 8, 'crashrestart': 3, 'down': 4, 'up': 2,
                 'reboot': 2, 'rm': 3, 'prio': 3, 'app': 12, 'cycle': 3,
-                'adv_ret': 3, 'state': 2},
-    'force': ['crashcycle', 'down'],
+                'adv_ret': 3, 'state': 2, 'rmsrvrace': 3},
+    'force': ['crashcycle', 'down', 'rmsrvrace'],
     'extra_ops': ['crashcycle', 'crashrestart'],
     'pre': (3, 10),
     'max_ops': 20,
